@@ -14,7 +14,10 @@ vars == <<tid, l, st, assigned, bad>>
 
 TR == Traces[tid]
 K == TR.kind
-Computed(k, t) == IF k = "auto" THEN Len(t) + 1 ELSE Len(t)
+\* BAD: the tracked field holds something the descriptor's function cannot work on (None): reading the attribute raises
+\* (written -2 here) until it is assigned or the tracked field is repaired; nothing of the failure may stay behind
+BAD == <<-1>>
+Computed(k, t) == IF t = BAD THEN -2 ELSE IF k = "auto" THEN Len(t) + 1 ELSE Len(t)
 Read(k, s) == IF s.flag = "F" THEN s.hidden ELSE Computed(k, s.tracked)
 Fresh(kw) == IF kw = -1 THEN [flag |-> "unset", hidden |-> 0, tracked |-> <<>>] ELSE [flag |-> "F", hidden |-> kw, tracked |-> <<>>]
 EncTracked(k, t) == IF k = "auto" THEN t \o <<0>> ELSE t
@@ -39,7 +42,8 @@ Apply ==   \* [s, a, ok, out]
       [] E.op = "unpack" -> LET r == UnpackOf(K, E.arg) IN
                             IF r.ok THEN [s |-> r.s, a |-> -1, ok |-> TRUE, out |-> <<>>] ELSE [s |-> st, a |-> assigned, ok |-> FALSE, out |-> <<>>]
       [] OTHER -> LET v == Read(K, st) IN
-                  IF v < 0 \/ v > 255 THEN [s |-> [st EXCEPT !.hidden = v], a |-> assigned, ok |-> FALSE, out |-> <<>>]
+                  IF st.tracked = BAD THEN [s |-> st, a |-> assigned, ok |-> FALSE, out |-> <<>>]
+                  ELSE IF v < 0 \/ v > 255 THEN [s |-> [st EXCEPT !.hidden = v], a |-> assigned, ok |-> FALSE, out |-> <<>>]
                   ELSE [s |-> [st EXCEPT !.hidden = v], a |-> assigned, ok |-> TRUE, out |-> <<v>> \o EncTracked(K, st.tracked)]
 
 F(name, ok) == IF ok THEN {} ELSE {name}
